@@ -18,7 +18,8 @@ What is modelled (Go statement ↔ label of `fire`):
                             | ctxWG.Add + spawn handle),
                             readerEof (read error)
   session.go readDisconnected     discLoad, discStore (CAS Ok→PassiveClosing, else load again), discCtxWait todo (graceCtxWait; `todo` = the order in which Range
-                            will yield entries: ANY index list), discPick (Range yields
+                            will yield entries: ANY index list that contains every entry of the table at
+                            that moment — the guarantee of atomicMap.Range), discPick (Range yields
                             the next entry), discVisit (mu.Lock; `¬hasReply ∧ stat.OK` → cancel; Unlock),
                             discFinish (socket.Close, no redial configured, PassiveClosed)
   context.go handleReply    hDone (stat from the reply — its status, else 400 if its body did not decode —
@@ -305,11 +306,15 @@ def fire (s : State) (l : Label) : Option State :=
       | _ => some { s with rpc := .discLoad }
     | _ => none
   | .discCtxWait todo =>
-    -- Range visits the table in map order: any list of indices (entries that are not in the table any
-    -- more are skipped by discPick); the driver uses index order
+    -- Range visits the table in map order: any list of indices that contains every entry present at
+    -- the start of the Range call (goutil atomicMap.Range iterates over "all of the keys that were already
+    -- present at the start of the call"; entries stored later may or may not be yielded: any further
+    -- indices; entries that are not in the table any more are skipped by discPick); the driver uses
+    -- index order
     match s.rpc with
     | .discCtxWait act =>
-      if s.ctxBusy = 0 ∧ todo.length ≤ s.calls.length then some { s with rpc := .discLoop act todo } else none
+      if s.ctxBusy = 0 ∧ todo.length ≤ s.calls.length ∧ (tableIdx s.calls 0).all (fun j => todo.contains j) = true then
+        some { s with rpc := .discLoop act todo } else none
     | _ => none
   | .discPick =>
     match s.rpc with
